@@ -253,6 +253,17 @@ def int_lit(n):
         return n["val"]["v"]
     if n.get("k") == "Cast":
         return int_lit(n["e"])
+    # `ARRAY.len()` of a fixed-size array: the length is in the type
+    if n.get("k") == "Call" and "fn" in n and n["fn"]["path"].endswith("<impl [T]>::len") and len(n.get("args") or []) == 1:
+        a_ = n["args"][0]
+        for _ in range(6):
+            m_ = re.match(r"^&?\[.*; (\d+)\]$", (a_.get("ty") or ""))
+            if m_:
+                return int(m_.group(1))
+            if a_.get("k") in ("Borrow", "Deref", "Coerce", "Cast") and isinstance(a_.get("e"), dict):
+                a_ = a_["e"]
+            else:
+                break
     return None
 
 
